@@ -2,6 +2,7 @@ package main
 
 import (
 	"fmt"
+	"time"
 	"go/constant"
 	"go/token"
 	"go/types"
@@ -104,6 +105,7 @@ type Interp struct {
 	mapOrderAll bool
 	depth     int
 	knownActive string
+	uncertain   bool
 	pathStubs   map[string]value
 	inited    map[*ssa.Package]bool
 
@@ -282,6 +284,28 @@ func (in *Interp) feasible(extra *Term) (Result, Model) {
 		in.restartSolver()
 		return Unknown, nil
 	}
+	if r == Unknown && in.ex.cfg.FallbackMs > 0 {
+		r2, m2, err := OneShot([]string{"cvc5", "--solve-bv-as-int=sum", fmt.Sprintf("--tlimit=%d", in.ex.cfg.FallbackMs)}, as, in.inputs, time.Duration(in.ex.cfg.FallbackMs)*time.Millisecond)
+		in.ex.noteFallback(r2)
+		if err == nil && r2 != Unknown {
+			if r2 == Sat && m2 == nil {
+				return Unknown, nil
+			}
+			in.solver.UnknownN--
+			return r2, m2
+		}
+	}
+	if r == Unknown {
+		if d := os.Getenv("SYMGO_DUMP_UNKNOWN"); d != "" {
+			in.ex.mu.Lock()
+			in.ex.dumpN++
+			n := in.ex.dumpN
+			in.ex.mu.Unlock()
+			if n <= 5 {
+				os.WriteFile(fmt.Sprintf("%s/unknown%d.smt2", d, n), []byte(Standalone(as)), 0o644)
+			}
+		}
+	}
 	return r, m
 }
 
@@ -329,8 +353,9 @@ func (in *Interp) decide(opts []*Term, kind byte) int {
 	}
 	// which options are feasible?
 	type fe struct {
-		i int
-		m Model
+		i   int
+		m   Model
+		unk bool
 	}
 	var feas []fe
 	known := -1
@@ -350,20 +375,20 @@ func (in *Interp) decide(opts []*Term, kind byte) int {
 			continue
 		}
 		if i == known {
-			feas = append(feas, fe{i, in.model})
+			feas = append(feas, fe{i, in.model, false})
 			continue
 		}
 		if allConst {
-			feas = append(feas, fe{i, in.model})
+			feas = append(feas, fe{i, in.model, false})
 			continue
 		}
 		r, m := in.feasible(o)
 		switch r {
 		case Sat:
-			feas = append(feas, fe{i, m})
+			feas = append(feas, fe{i, m, false})
 		case Unknown:
 			in.res.Unknowns++
-			feas = append(feas, fe{i, nil})
+			feas = append(feas, fe{i, nil, true})
 		}
 	}
 	if len(feas) == 0 {
@@ -372,7 +397,10 @@ func (in *Interp) decide(opts []*Term, kind byte) int {
 	base := append([]Decision(nil), in.decisions...)
 	for _, f := range feas[1:] {
 		p := append(append([]Decision(nil), base...), Decision{Val: f.i, N: len(opts), Kind: kind})
-		in.ex.push(&WorkItem{Prefix: p, Model: f.m})
+		in.ex.push(&WorkItem{Prefix: p, Model: f.m, Uncertain: in.uncertain || f.unk})
+	}
+	if feas[0].unk {
+		in.uncertain = true
 	}
 	d := Decision{Val: feas[0].i, N: len(opts), Forced: len(feas) == 1, Kind: kind}
 	in.decisions = append(in.decisions, d)
@@ -424,7 +452,7 @@ func (in *Interp) chooseN(n int, kind byte) int {
 	base := append([]Decision(nil), in.decisions...)
 	for i := 1; i < n; i++ {
 		p := append(append([]Decision(nil), base...), Decision{Val: i, N: n, Kind: kind})
-		in.ex.push(&WorkItem{Prefix: p, Model: in.model})
+		in.ex.push(&WorkItem{Prefix: p, Model: in.model, Uncertain: in.uncertain})
 	}
 	in.decisions = append(in.decisions, Decision{Val: 0, N: n, Kind: kind})
 	return 0
